@@ -256,6 +256,51 @@ def registry_inputs(name, m, sv, limit=600, funcs=('validate',)):
     return list(dict.fromkeys(out))
 
 
+def registry_siblings(name, m, sv, funcs=('validate',), parents=3):
+    """Groups of inputs that fall in sibling entries of one registry (same parent prefix, first / last nested entry,
+    and the parent range outside the nested entries): what a cache keyed by the parent prefix would confuse."""
+    import stdnum.numdb as nd
+    groups = []
+    seeds = [v for s, v in sv[:1]]
+    if not seeds:
+        return groups
+    v = seeds[0]
+    pattern = [(i, c) for i, c in enumerate(v) if not c.isalnum()]
+    va = ''.join(ch for ch in v if ch.isalnum())
+
+    def shape(p):
+        a = (p + va[len(p):]) if len(va) > len(p) else p
+        for i, ch in pattern:
+            a = a[:i] + ch + a[i:]
+        if v.islower():
+            a = a.lower()
+        r = _repair(m, a, None, table_check_positions(name, m, a))
+        return r[0] if r else a
+
+    def walk(prefixes, acc, depth):
+        for length, low, high, props, children in prefixes:
+            if children and len(groups) < parents * 4:
+                kids = [acc + low + c[1] for c in children]
+                pick = list(dict.fromkeys([kids[0], kids[len(kids) // 2], kids[-1]]))
+                if len(pick) >= 2:
+                    groups.append([shape(x) for x in pick])
+                if depth < 3:
+                    walk(children, acc + low, depth + 1)
+    for dbn in registry_names(m, sv, funcs):
+        try:
+            db = nd.get(dbn) if isinstance(dbn, str) else dbn
+        except Exception:
+            continue
+        before = len(groups)
+        walk(db.prefixes, '', 0)
+        # neighbouring top-level entries as one more group
+        tops = [low for length, low, high, props, children in db.prefixes[:3]]
+        if len(tops) >= 2:
+            groups.append([shape(x) for x in tops])
+        del groups[before + parents + 1:]
+    return [g for g in groups if len(set(g)) >= 2]
+
+
 # ------------------------------------------------------------------------------------------ code tables
 
 def table_inputs(name, m, sv, limit=1500):
@@ -295,6 +340,51 @@ def table_inputs(name, m, sv, limit=1500):
     if len(out) > limit:
         step = len(out) / float(limit)
         out = [out[int(i * step)] for i in range(limit)]
+    return out
+
+
+# ------------------------------------------------------------------------------------------ code literals
+
+def code_literals(m):
+    """Alphanumeric string literals (2..40 characters) in the code of the module's own functions: the values
+    the code compares its argument with (special prefixes, reserved numbers, exempt ranges)."""
+    import types
+    out = []
+
+    def consts(code, depth=0):
+        for c in code.co_consts:
+            if isinstance(c, str) and 2 <= len(c) <= 40 and c.isascii() and c.isalnum():
+                out.append(c)
+            elif isinstance(c, (tuple, frozenset)):
+                out.extend(x for x in c if isinstance(x, str) and 2 <= len(x) <= 40 and x.isascii() and x.isalnum())
+            elif isinstance(c, types.CodeType) and depth < 3:
+                consts(c, depth + 1)
+    for k, v in sorted(vars(m).items()):
+        if isinstance(v, types.FunctionType) and v.__module__ == m.__name__:
+            consts(v.__code__)
+    return list(dict.fromkeys(out))
+
+
+def literal_variants(name, m, sv, limit=16):
+    """Valid numbers in which a literal of the module's code replaces the head, the tail or the whole of a
+    documented number (check position repaired): start states behind the branches that compare with it."""
+    out = []
+    lits = [x for x in code_literals(m) if any(ch.isdigit() for ch in x) or len(x) <= 4]
+    lits.sort(key=lambda x: (-len(x), x))
+    seeds = [v for s_, v in sv[:2] if isinstance(v, str)]
+    for lit in lits[:24]:
+        for v in seeds:
+            if len(lit) > len(v):
+                continue
+            cands = [lit + v[len(lit):], v[:len(v) - len(lit)] + lit]
+            for t in cands:
+                if t == v:
+                    continue
+                for u in _repair(m, t)[:1]:
+                    if u not in out and u != v:
+                        out.append(u)
+            if len(out) >= limit:
+                return out
     return out
 
 
